@@ -165,32 +165,36 @@ def compositions(L_):
     return out
 
 
-def ctor_cases(tier):
+def ctor_cases(tier, cfg=None, QD='highp', tag='', simd=False):
     cs = []
-    cfg = CFG_DEF
+    cfg = cfg or CFG_DEF
     TT = ['float', 'int', 'double', 'uint']
-    dests = TT if tier == 'thorough' else ['float', 'int']
+    dests = TT if (tier == 'thorough' and not simd) else ['float', 'int']
     for T in dests:
         for L_ in (1, 2, 3, 4):
-            vt = G.vec(L_, T)
+            vt = G.vec(L_, T, QD)
             # (1) single scalar broadcast, possibly of another type via explicit cast semantics
             sc = G.scalar(T)
-            k = K('ctor_%s_bcast' % vt.tag, [Par('o', vt, False), Par('s', sc)], '*o = %s(*s);' % vt.cpp, cfg)
-            cs.append(R.Case('vec%d<%s>(scalar)' % (L_, T), [k], sel_judge('vec%d<%s>(scalar)' % (L_, T), 'ctor_broadcast', k, vt, {i: L.in_term('s', sc, 0) for i in range(L_)})))
+            k = K('ctor%s_%s_bcast' % (tag, vt.tag), [Par('o', vt, False), Par('s', sc)], '*o = %s(*s);' % vt.cpp, cfg)
+            cs.append(R.Case('vec%d<%s>(scalar)%s' % (L_, T, tag), [k], sel_judge('vec%d<%s>(scalar)%s' % (L_, T, tag), 'ctor_broadcast', k, vt, {i: L.in_term('s', sc, 0) for i in range(L_)})))
             # (2) from a vector of any length >= L_ (truncation) and any element type / qualifier
             for M in range(L_, 5):
                 for U in TT:
-                    for Q in (['highp', 'mediump'] if tier == 'thorough' else ['highp']):
+                    if simd:
+                        quals = ['packed_highp', 'aligned_highp', 'aligned_mediump'] if tier == 'thorough' else ['packed_highp', 'aligned_highp']
+                    else:
+                        quals = ['highp', 'mediump'] if tier == 'thorough' else ['highp']
+                    for Q in quals:
                         st = G.vec(M, U, Q)
-                        k = K('ctor_%s_from_%s' % (vt.tag, st.tag), [Par('o', vt, False), Par('a', st)], '*o = %s(*a);' % vt.cpp, cfg)
-                        nm = 'vec%d<%s>(vec%d<%s,%s>)' % (L_, T, M, U, Q)
+                        k = K('ctor%s_%s_from_%s' % (tag, vt.tag, st.tag), [Par('o', vt, False), Par('a', st)], '*o = %s(*a);' % vt.cpp, cfg)
+                        nm = 'vec%d<%s,%s>(vec%d<%s,%s>)%s' % (L_, T, QD, M, U, Q, tag)
                         cs.append(R.Case(nm, [k], sel_judge(nm, 'ctor_convert', k, vt, {i: conv(U, T, L.in_term('a', st, i)) for i in range(L_)}, allow_missing=True)))
             # (3) every composition of scalars / vec1 / vectors in argument order with mixed element types
             if L_ == 1:
                 for U in TT:
-                    v1 = G.vec(1, U)
-                    k = K('ctor_%s_from1_%s' % (vt.tag, v1.tag), [Par('o', vt, False), Par('a', v1)], '*o = %s(*a);' % vt.cpp, cfg)
-                    nm = 'vec1<%s>(vec1<%s>)' % (T, U)
+                    v1 = G.vec(1, U, QD)
+                    k = K('ctor%s_%s_from1_%s' % (tag, vt.tag, v1.tag), [Par('o', vt, False), Par('a', v1)], '*o = %s(*a);' % vt.cpp, cfg)
+                    nm = 'vec1<%s>(vec1<%s>)%s' % (T, U, tag)
                     cs.append(R.Case(nm, [k], sel_judge(nm, 'ctor_convert', k, vt, {0: conv(U, T, L.in_term('a', v1, 0))}, allow_missing=True)))
                 continue
             for comp in compositions(L_):
@@ -213,16 +217,18 @@ def ctor_cases(tier):
                                 want[lane] = conv(U, T, L.in_term(an, aty, 0))
                                 desc.append(U)
                             else:
-                                aty = G.vec(p, U)
+                                aty = G.vec(p, U, QD)
                                 for j in range(p):
                                     want[lane + j] = conv(U, T, L.in_term(an, aty, j))
                                 desc.append('vec%d<%s>' % (p, U))
                             params.append(Par(an, aty))
                             args.append('*' + an)
                             lane += p
-                        nm = 'vec%d<%s>(%s)' % (L_, T, ', '.join(desc))
-                        k = K('ctor_%s_%s_r%d_%s' % (vt.tag, ''.join(map(str, comp)), rot, ''.join(var)), params, '*o = %s(%s);' % (vt.cpp, ', '.join(args)), cfg)
+                        nm = 'vec%d<%s>(%s)%s' % (L_, T, ', '.join(desc), tag)
+                        k = K('ctor%s_%s_%s_r%d_%s' % (tag, vt.tag, ''.join(map(str, comp)), rot, ''.join(var)), params, '*o = %s(%s);' % (vt.cpp, ', '.join(args)), cfg)
                         cs.append(R.Case(nm, [k], sel_judge(nm, 'ctor_compose', k, vt, want, allow_missing=True)))
+    if simd:
+        return cs
     # matrices: element-type conversion per lane, mixed-type element and column constructors
     for T, U in ((('float', 'double'), ('float', 'int'), ('int', 'float'), ('double', 'float')) if tier == 'thorough' else (('float', 'double'), ('float', 'int'))):
         for C in (2, 3, 4):
@@ -257,8 +263,17 @@ def ctor_cases(tier):
     return cs
 
 
+def simd_ctor_cases(tier):
+    """constructors and qualifier conversions of the aligned (SIMD-register) types and of packed types built from them"""
+    cs = []
+    for cfg, tg in ((CFG_OP, '@sse2'), (CFG_OP_AVX, '@avx2')) if tier == 'thorough' else ((CFG_OP, '@sse2'),):
+        for QD in ('aligned_highp', 'packed_highp'):
+            cs += ctor_cases(tier, cfg=cfg, QD=QD, tag='%s:%s' % (tg, QD.split('_')[0]), simd=True)
+    return cs
+
+
 def cases(tier):
-    return swizzle_cases(tier) + ctor_cases(tier) + canaries()
+    return swizzle_cases(tier) + ctor_cases(tier) + simd_ctor_cases(tier) + canaries()
 
 
 def canaries():
